@@ -18,7 +18,7 @@
 -/
 namespace Nstd.Json
 
-abbrev Byte := Nat
+scoped notation "Byte" => Nat
 
 /-- the part of `Variant` the JSON code produces / the property speaks about -/
 inductive Val where
@@ -37,6 +37,14 @@ inductive Res (α : Type) where
   | fail (line : Nat) (pos : List Byte)   -- syntaxError(pos, ..): line and cursor; the column is computed by `parse`
   | oob                                   -- a read behind the end of the buffer
   | nofuel
+
+/-- error / oob / nofuel propagate (`if(!f()) return false;`) -/
+@[inline] def Res.bind {α β : Type} (x : Res α) (k : α → Res β) : Res β :=
+  match x with
+  | .ok a => k a
+  | .fail l p => .fail l p
+  | .oob => .oob
+  | .nofuel => .nofuel
 
 /-! ### character classes, small libc pieces -/
 
@@ -121,8 +129,7 @@ def readStr : Nat → Nat → List Byte → List Byte → Res (Nat × List Byte 
         else if e = 114 then readStr f line (acc ++ [13]) r'
         else if e = 116 then readStr f line (acc ++ [9]) r'
         else if e = 117 then
-          match hex4 line 4 [] r' with
-          | .ok (k, r2) =>
+          (hex4 line 4 [] r').bind fun (k, r2) =>
             let w1 := scanHex k
             if w1 &&& 0xF800 = 0xD800 ∧ w1 &&& 0xFC00 = 0xD800 then
               -- `if(*pos.pos != '\\' || pos.pos[1] != 'u')`
@@ -136,18 +143,11 @@ def readStr : Nat → Nat → List Byte → List Byte → Res (Nat × List Byte 
                   | b2 :: r4 =>
                     if b2 ≠ 117 then .fail line r2
                     else
-                      match hex4 line 4 [] r4 with
-                      | .ok (k2, r5) =>
+                      (hex4 line 4 [] r4).bind fun (k2, r5) =>
                         let w2 := scanHex k2
                         if w2 &&& 0xFC00 ≠ 0xDC00 then .fail line r2     -- `pos.pos -= 6`
                         else readStr f line (acc ++ utf8 (((w2 &&& 0x3FF) ||| ((w1 &&& 0x3FF) <<< 10)) + 0x10000)) r5
-                      | .fail l p => .fail l p
-                      | .oob => .oob
-                      | .nofuel => .nofuel
             else readStr f line (acc ++ utf8 w1) r2
-          | .fail l p => .fail l p
-          | .oob => .oob
-          | .nofuel => .nofuel
         else readStr f line (acc ++ [92]) (e :: r')   -- unknown escape: keep the backslash, look at `e` again
     else if c = 34 then .ok (line, acc, r)
     else readStr f line (acc ++ [c]) r
@@ -183,50 +183,32 @@ structure St where
 
 /-- `Json::Private::readToken` -/
 def readToken (line : Nat) (r : List Byte) : Res St :=
-  match skipSpace line r with
-  | .ok (line, r) =>
+  (skipSpace line r).bind fun (line, r) =>
     match r with
     | [] => .oob
     | c :: r' =>
       if c = 0 then .ok ⟨0, .null, line, c :: r'⟩
       else if c = 123 ∨ c = 125 ∨ c = 91 ∨ c = 93 ∨ c = 44 ∨ c = 58 then .ok ⟨c, .null, line, r'⟩
       else if c = 34 then
-        match readStr (r'.length) line [] r' with
-        | .ok (line', v, r'') => .ok ⟨34, .str v, line', r''⟩
-        | .fail l p => .fail l p
-        | .oob => .oob
-        | .nofuel => .nofuel
+        (readStr (r'.length) line [] r').bind fun (line', v, r'') => .ok ⟨34, .str v, line', r''⟩
       else if c = 116 then
-        match litMatch [116, 114, 117, 101] (c :: r') with
-        | .ok (some r'') => .ok ⟨116, .bool true, line, r''⟩
-        | .ok none => .fail line (c :: r')
-        | .fail l p => .fail l p
-        | .oob => .oob
-        | .nofuel => .nofuel
+        (litMatch [116, 114, 117, 101] (c :: r')).bind fun m =>
+          match m with
+          | some r'' => .ok ⟨116, .bool true, line, r''⟩
+          | none => .fail line (c :: r')
       else if c = 102 then
-        match litMatch [102, 97, 108, 115, 101] (c :: r') with
-        | .ok (some r'') => .ok ⟨102, .bool false, line, r''⟩
-        | .ok none => .fail line (c :: r')
-        | .fail l p => .fail l p
-        | .oob => .oob
-        | .nofuel => .nofuel
+        (litMatch [102, 97, 108, 115, 101] (c :: r')).bind fun m =>
+          match m with
+          | some r'' => .ok ⟨102, .bool false, line, r''⟩
+          | none => .fail line (c :: r')
       else if c = 110 then
-        match litMatch [110, 117, 108, 108] (c :: r') with
-        | .ok (some r'') => .ok ⟨110, .null, line, r''⟩
-        | .ok none => .fail line (c :: r')
-        | .fail l p => .fail l p
-        | .oob => .oob
-        | .nofuel => .nofuel
+        (litMatch [110, 117, 108, 108] (c :: r')).bind fun m =>
+          match m with
+          | some r'' => .ok ⟨110, .null, line, r''⟩
+          | none => .fail line (c :: r')
       else if c = 45 ∨ isDigit c then
-        match numLoop [] false (c :: r') with
-        | .ok (n, dbl, r'') => .ok ⟨35, numVal n dbl, line, r''⟩
-        | .fail l p => .fail l p
-        | .oob => .oob
-        | .nofuel => .nofuel
+        (numLoop [] false (c :: r')).bind fun (n, dbl, r'') => .ok ⟨35, numVal n dbl, line, r''⟩
       else .fail line (c :: r')
-  | .fail l p => .fail l p
-  | .oob => .oob
-  | .nofuel => .nofuel
 
 /-! ### recursive descent -/
 
@@ -241,102 +223,44 @@ def mapAppend : List (List Byte × Val) → List Byte → Val → List (List Byt
 
 def isScalarTok (t : Byte) : Bool := t == 34 || t == 35 || t == 116 || t == 102 || t == 110
 
+/-- read the next token from the position of `st` -/
+def St.next (st : St) : Res St := readToken st.line st.r
+
 mutual
 /-- `parseValue` (with `parseArray` / `parseObject` entered when the token is `[` / `{`) -/
 def parseValue : Nat → St → Res (Val × St)
   | 0, _ => .nofuel
   | f + 1, st =>
-    if isScalarTok st.tok then
-      match readToken st.line st.r with
-      | .ok st' => .ok (st.val, st')
-      | .fail l p => .fail l p
-      | .oob => .oob
-      | .nofuel => .nofuel
-    else if st.tok = 91 then
-      match readToken st.line st.r with
-      | .ok st1 => arrLoop f [] st1
-      | .fail l p => .fail l p
-      | .oob => .oob
-      | .nofuel => .nofuel
-    else if st.tok = 123 then
-      match readToken st.line st.r with
-      | .ok st1 => objLoop f [] st1
-      | .fail l p => .fail l p
-      | .oob => .oob
-      | .nofuel => .nofuel
+    if isScalarTok st.tok then st.next.bind fun st' => .ok (st.val, st')
+    else if st.tok = 91 then st.next.bind fun st1 => arrLoop f [] st1
+    else if st.tok = 123 then st.next.bind fun st1 => objLoop f [] st1
     else .fail st.line st.r
 /-- the `while(token.token != ']')` loop of `parseArray` and the final `readToken` -/
 def arrLoop : Nat → List Val → St → Res (Val × St)
   | 0, _, _ => .nofuel
   | f + 1, acc, st =>
-    if st.tok = 93 then
-      match readToken st.line st.r with
-      | .ok st' => .ok (.list acc, st')
-      | .fail l p => .fail l p
-      | .oob => .oob
-      | .nofuel => .nofuel
+    if st.tok = 93 then st.next.bind fun st' => .ok (.list acc, st')
     else
-      match parseValue f st with
-      | .ok (v, st1) =>
-        if st1.tok = 93 then
-          match readToken st1.line st1.r with
-          | .ok st' => .ok (.list (acc ++ [v]), st')
-          | .fail l p => .fail l p
-          | .oob => .oob
-          | .nofuel => .nofuel
+      (parseValue f st).bind fun (v, st1) =>
+        if st1.tok = 93 then st1.next.bind fun st' => .ok (.list (acc ++ [v]), st')
         else if st1.tok ≠ 44 then .fail st1.line st1.r
-        else
-          match readToken st1.line st1.r with
-          | .ok st2 => arrLoop f (acc ++ [v]) st2
-          | .fail l p => .fail l p
-          | .oob => .oob
-          | .nofuel => .nofuel
-      | .fail l p => .fail l p
-      | .oob => .oob
-      | .nofuel => .nofuel
+        else st1.next.bind fun st2 => arrLoop f (acc ++ [v]) st2
 /-- the `while(token.token != '}')` loop of `parseObject` and the final `readToken` -/
 def objLoop : Nat → List (List Byte × Val) → St → Res (Val × St)
   | 0, _, _ => .nofuel
   | f + 1, acc, st =>
-    if st.tok = 125 then
-      match readToken st.line st.r with
-      | .ok st' => .ok (.map acc, st')
-      | .fail l p => .fail l p
-      | .oob => .oob
-      | .nofuel => .nofuel
+    if st.tok = 125 then st.next.bind fun st' => .ok (.map acc, st')
     else if st.tok ≠ 34 then .fail st.line st.r
     else
       let key := st.val.strOf
-      match readToken st.line st.r with
-      | .ok st1 =>
+      st.next.bind fun st1 =>
         if st1.tok ≠ 58 then .fail st1.line st1.r
         else
-          match readToken st1.line st1.r with
-          | .ok st2 =>
-            match parseValue f st2 with
-            | .ok (v, st3) =>
-              if st3.tok = 125 then
-                match readToken st3.line st3.r with
-                | .ok st' => .ok (.map (mapAppend acc key v), st')
-                | .fail l p => .fail l p
-                | .oob => .oob
-                | .nofuel => .nofuel
+          st1.next.bind fun st2 =>
+            (parseValue f st2).bind fun (v, st3) =>
+              if st3.tok = 125 then st3.next.bind fun st' => .ok (.map (mapAppend acc key v), st')
               else if st3.tok ≠ 44 then .fail st3.line st3.r
-              else
-                match readToken st3.line st3.r with
-                | .ok st4 => objLoop f (mapAppend acc key v) st4
-                | .fail l p => .fail l p
-                | .oob => .oob
-                | .nofuel => .nofuel
-            | .fail l p => .fail l p
-            | .oob => .oob
-            | .nofuel => .nofuel
-          | .fail l p => .fail l p
-          | .oob => .oob
-          | .nofuel => .nofuel
-      | .fail l p => .fail l p
-      | .oob => .oob
-      | .nofuel => .nofuel
+              else st3.next.bind fun st4 => objLoop f (mapAppend acc key v) st4
 end
 
 /-- `syntaxError`: walk back from the error cursor to the previous CR/LF or the start -/
